@@ -46,6 +46,27 @@ pub fn document(tier: Tier) -> BoxedStrategy<(String, String)> {
     .boxed()
 }
 
+/// characters the server registers as completion / signature-help triggers, plus the postfix trigger
+pub const TRIGGER_CHARS: &[&str] = &[".", ":", "(", "[", "\"", "'", " ", "@", "\\", "/", "|", "#", "?", ",", "-", "---@", "--", "{", "="];
+
+/// `document` plus two shapes editors produce while typing: a document cut at an arbitrary char boundary (its first
+/// token is then the tail of some token) and a document that begins with a trigger character
+pub fn document_typed(tier: Tier) -> BoxedStrategy<(String, String)> {
+    prop_oneof![
+        10 => document(tier),
+        2 => (document(tier), any::<u16>()).prop_map(|((t, _), i)| {
+            let mut a = util::idx(i, t.len() + 1);
+            while !t.is_char_boundary(a) { a -= 1; }
+            (t[a..].to_string(), "tail-of-document".to_string())
+        }),
+        2 => (0..TRIGGER_CHARS.len(), "[a-z]{0,3}", prop_oneof![Just(""), Just("\n"), Just(" "), Just("(")], document(tier), any::<bool>()).prop_map(|(k, w, sep, (t, _), alone)| {
+            let rest = if alone { String::new() } else { t };
+            (format!("{}{}{}{}", TRIGGER_CHARS[k], w, sep, rest), "trigger-char-first".to_string())
+        }),
+    ]
+    .boxed()
+}
+
 /// (line, utf16 character) of a byte offset, with lines split at '\n' only (the server's own line model)
 pub fn position_of(text: &str, offset: usize) -> (u32, u32) {
     let mut off = offset.min(text.len());
@@ -81,6 +102,8 @@ pub enum PosSel {
     PastEof(u8, u16),
     Huge,
     Max,
+    /// byte offset `n` from the start of the document (clamped, moved back to a char boundary)
+    Byte(u8),
 }
 
 pub fn pos_sel() -> impl Strategy<Value = PosSel> {
@@ -91,6 +114,7 @@ pub fn pos_sel() -> impl Strategy<Value = PosSel> {
         2 => (0u8..6, 0u16..30).prop_map(|(n, c)| PosSel::PastEof(n, c)),
         1 => Just(PosSel::Huge),
         1 => Just(PosSel::Max),
+        2 => (0u8..6).prop_map(PosSel::Byte),
     ]
 }
 
@@ -112,5 +136,9 @@ pub fn resolve(text: &str, sel: &PosSel) -> (u32, u32, bool) {
         PosSel::PastEof(n, c) => (lines + *n as u32, *c as u32, true),
         PosSel::Huge => (0, 1_000_000, true),
         PosSel::Max => (u32::MAX, u32::MAX, true),
+        PosSel::Byte(n) => {
+            let (l, c) = position_of(text, (*n as usize).min(text.len()));
+            (l, c, false)
+        }
     }
 }
